@@ -153,17 +153,20 @@ def request_data_problem(rec: dict[str, Any]) -> tuple[str, Any] | None:
 class RecordingClient:
     """Delegating wrapper around the in-process HTTP test client that records every POST and its response."""
 
-    def __init__(self, inner: Any) -> None:
+    def __init__(self, inner: Any, mark: Any = None) -> None:
         self._inner = inner
+        self._mark = mark  # callable returning the number of access-log lines captured so far
         self.responses: list[dict[str, Any]] = []
 
     def __getattr__(self, name: str) -> Any:
         return getattr(self._inner, name)
 
     def post(self, url: str, **kw: Any) -> Any:
+        n0 = self._mark() if self._mark else 0
         resp = self._inner.post(url, **kw)
         self.responses.append(
             {
+                "lines": (n0, self._mark() if self._mark else 0),
                 "url": url,
                 "status": resp.status_code,
                 "headers": {k.lower(): v for k, v in resp.headers.items()},
